@@ -191,7 +191,7 @@ theorem fetch_inv {p : Pub} {q : Peer} (inv : PeerInv p q) : PeerInv p q.fetch :
     · simp only [Want.seq.injEq] at hn
       subst hn
       have hlt : q.known < q.latest := by
-        have : ¬ q.known ≥ q.latest := fun h => hc (Or.inr h)
+        have : ¬ q.known ≥ q.latest := fun h => hc (Or.inr (Or.inr h))
         rw [ge_iff_le, UInt64.le_iff_toNat_le] at this
         rw [UInt64.lt_iff_toNat_lt]; omega
       rw [UInt64.lt_iff_toNat_lt] at hlt
@@ -240,6 +240,16 @@ theorem sync_inv {p : Pub} {q : Peer} (inv : PeerInv p q) (high : UInt64) : Peer
   apply fetch_inv
   exact ⟨inv.le, inv.set, inv.next⟩
 
+theorem path_inv {p : Pub} {q : Peer} (inv : PeerInv p q) (up : Bool) :
+    PeerInv p (if up then q.gainPath else q.losePath) := by
+  cases up with
+  | false => exact ⟨inv.le, inv.set, inv.next⟩
+  | true =>
+    simp only [if_true, Peer.gainPath]
+    split
+    · exact inv
+    · apply fetch_inv; exact ⟨inv.le, inv.set, inv.next⟩
+
 theorem peerInv_pub {p p' : Pub} {q : Peer} (inv : PeerInv p q) (hle : p.seq ≤ p'.seq)
     (hold : ∀ k, k ≤ p.seq → setAtL p'.log k = setAtL p.log k) : PeerInv p' q :=
   ⟨UInt64.le_trans inv.le hle, by rw [hold _ inv.le]; exact inv.set, inv.next⟩
@@ -247,6 +257,8 @@ theorem peerInv_pub {p p' : Pub} {q : Peer} (inv : PeerInv p q) (hle : p.seq ≤
 /-! ### the replication system: one publisher, any number of peers, any interleaving -/
 
 inductive LogEvent where
+  /-- the RIB of peer `b` gains / loses its path to the publisher -/
+  | path (b : Nat) (up : Bool)
   | announce (name : Nat)
   | withdraw (name : Nat)
   /-- peer `b` learns (from the sync group) that the publisher's sequence number is `high` -/
@@ -263,6 +275,9 @@ structure LogSys where
 def LogSys.init (seq0 : UInt64) (k : Nat) : LogSys := { pub := Pub.init seq0, peers := List.replicate k Peer.init }
 
 def LogSys.step (s : LogSys) : LogEvent → LogSys
+  | .path b up => match s.peers[b]? with
+    | some q => { s with peers := s.peers.set b (if up then q.gainPath else q.losePath) }
+    | none => s
   | .announce n => { s with pub := s.pub.announce n }
   | .withdraw n => { s with pub := s.pub.withdraw n }
   | .sync b high => match s.peers[b]? with
@@ -303,6 +318,12 @@ theorem sysInv_step {s : LogSys} (inv : SysInv s) (ev : LogEvent) (hw : s.pub.se
     · exact inv.peers q hq
     · exact h q0 hq0
   cases ev with
+  | path b up =>
+    simp only [LogSys.step]
+    cases hq : s.peers[b]? with
+    | none => exact ⟨inv, Nat.le_succ _⟩
+    | some q =>
+      refine ⟨setInv b _ (fun _ _ => path_inv (inv.peers q (List.mem_of_getElem? hq)) up) q hq, by simp⟩
   | announce n =>
     obtain ⟨pi, hle, hold⟩ := announce_inv inv.pub n hw
     refine ⟨⟨pi, fun q hq => peerInv_pub (inv.peers q hq) hle hold⟩, ?_⟩
